@@ -961,6 +961,43 @@ def output_value_kept(facts, rep):
                         return True
         return False
 
+    def extra_reference(b):
+        """alternative exemption: the consumer counter of the output node is incremented once more (`cnt[output] += k`) before
+        the closure that frees values is created, on the counter container that closure captures"""
+        if b is parent:
+            return False
+        site = [(bb, j, rv) for bb, j, place, rv in parent.assigns()
+                if rv[0] == "agg" and rv[1].get("k") == "closure" and rv[1].get("def") == b.id]
+        if len(site) != 1:
+            return False
+        sb, sj, srv = site[0]
+        captured = set()
+        for o_ in srv[2]:
+            if o_[0] != "k":
+                captured.add(pfl.root_of(o_[1][0]))
+        for bb, j, place, rv in parent.assigns():
+            if not (len(place) == 2 and place[1] == "*" and rv[0] == "use" and rv[1][0] != "k" and not parent.is_cleanup(bb)):
+                continue
+            src = rv[1][1]
+            if len(src) != 2 or not str(src[1]).startswith("f0"):
+                continue
+            add = [r2 for b2, j2, p2, r2 in parent.assigns() if p2 == [src[0]] and r2[0] == "bin"]
+            if len(add) != 1 or not add[0][1].startswith("Add") or add[0][3][0] != "k" or not (add[0][3][4] or "0").lstrip("-").isdigit() \
+                    or int(add[0][3][4]) < 1 or add[0][2][0] == "k" or add[0][2][1] != [place[0], "*"]:
+                continue
+            for di in pfl.defs_of.get(place[0], []):
+                _, db, dj = pfl.defs[di]
+                if dj is not None or db < 0:
+                    continue
+                t = parent.term(db)
+                if not (callee_name(t) or "").endswith("::index_mut") or len(t["args"]) != 2:
+                    continue
+                if not is_output_id(parent, pfl, t["args"][1], (db, None)):
+                    continue
+                if t["args"][0][0] != "k" and pfl.root_of(t["args"][0][1][0]) in captured and C.dominates(parent, bb, sb):
+                    return True
+        return False
+
     n = 0
     for b in [parent] + list(facts.closures_of(parent.id)):
         fl = Flow(facts, b)
@@ -989,8 +1026,11 @@ def output_value_kept(facts, rep):
                 res = V.executable_under(facts, b, forced={cl: ("b", rv[1] == "Eq")})
                 if sb not in res.blocks:
                     ok = True
+            if not ok and extra_reference(b):
+                ok = True
             rep.ob("C09.O", "%s|free#%d" % (b.id.split("::")[-1] if b is not parent else "evaluate_graph", k), ok,
-                   "the slot that is freed is compared with the output node's id and the write is unreachable when they are equal"
+                   "the slot that is freed is compared with the output node's id and the write is unreachable when they are equal "
+                   "(or the output node's consumer counter gets an extra reference before the freeing closure exists)"
                    if ok else
                    "a node value is freed without excluding the output node: when the output node has consumers inside the graph, "
                    "the final node_values[output].unwrap() panics", b.loc(sb))
